@@ -230,13 +230,22 @@ func mkEntity(v *mVersion) *Entity {
 	return e
 }
 
-// drawVersion draws one entity version from the small family used by the
-// history harnesses: id from ids, ref p1 ∈ {none, t0, t1, [t0,t1]}, ref p2 ∈
-// {none, t1}, property v ∈ {absent, "x", "y"}, deleted flag.
-func drawVersion(h *verifh.H, ids, targets []string, withProps bool) *mVersion {
+// vFamily bounds the entity family drawn by drawVersion.
+type vFamily struct {
+	P1   int  // number of options for ref p1 out of {none, t0, t1, [t0,t1]}
+	P2   bool // ref p2 ∈ {none, t1}
+	Vals int  // number of options for property v out of {absent, "x", "y"}
+	Del  bool // deleted flag
+}
+
+var famRefs = vFamily{P1: 4, P2: true, Vals: 1, Del: true}
+var famProps = vFamily{P1: 2, P2: false, Vals: 3, Del: true}
+
+// drawVersion draws one entity version from a small family.
+func drawVersion(h *verifh.H, ids, targets []string, fam vFamily) *mVersion {
 	v := &mVersion{Props: map[string]string{}, Refs: map[string][]string{}}
 	v.ID = ids[h.Choice("id", len(ids))]
-	switch h.Choice("p1", 4) {
+	switch h.Choice("p1", fam.P1) {
 	case 1:
 		v.Refs["ns0:p1"] = []string{targets[0]}
 	case 2:
@@ -244,19 +253,232 @@ func drawVersion(h *verifh.H, ids, targets []string, withProps bool) *mVersion {
 	case 3:
 		v.Refs["ns0:p1"] = []string{targets[0], targets[1]}
 	}
-	if h.Choice("p2", 2) == 1 {
+	if fam.P2 && h.Choice("p2", 2) == 1 {
 		v.Refs["ns0:p2"] = []string{targets[1]}
 	}
-	if withProps {
-		switch h.Choice("val", 3) {
-		case 1:
-			v.Props["ns0:v"] = "x"
-		case 2:
-			v.Props["ns0:v"] = "y"
+	switch h.Choice("val", fam.Vals) {
+	case 1:
+		v.Props["ns0:v"] = "x"
+	case 2:
+		v.Props["ns0:v"] = "y"
+	}
+	if fam.Del {
+		v.Deleted = h.Choice("del", 2) == 1
+	}
+	return v
+}
+
+// vHistory drives a history of batches through the real write path and the
+// reference model in lock step.
+type vHistory struct {
+	hub *VHub
+	dss map[string]*Dataset
+	g   *mGraph
+	dsn []string
+}
+
+func vNewHistory(h *verifh.H, dsn ...string) *vHistory {
+	hub := VerifNewHub(h)
+	hs := &vHistory{hub: hub, dss: map[string]*Dataset{}, g: newMGraph(dsn...), dsn: dsn}
+	for _, n := range dsn {
+		ds, err := hub.Dsm.CreateDataset(n, nil)
+		h.Assert(err == nil, "create dataset")
+		hs.dss[n] = ds
+	}
+	return hs
+}
+
+// step writes one drawn batch; the first batch goes to the first dataset
+// unless firstAny (symmetry reduction).
+func (hs *vHistory) step(h *verifh.H, s int, fam vFamily, batch2, firstAny bool) string {
+	ids := []string{"ns0:e1", "ns0:e2"}
+	targets := []string{"ns0:e2", "ns0:e3"}
+	name := hs.dsn[0]
+	if (s > 0 || firstAny) && len(hs.dsn) > 1 {
+		name = hs.dsn[h.Choice("ds", len(hs.dsn))]
+	}
+	nb := 1
+	if batch2 {
+		nb = 2 // the same dataset gets two versions in one batch (ids may repeat)
+	}
+	var batch []*mVersion
+	var ents []*Entity
+	for k := 0; k < nb; k++ {
+		v := drawVersion(h, ids, targets, fam)
+		batch = append(batch, v)
+		ents = append(ents, mkEntity(v))
+	}
+	err := hs.dss[name].StoreEntities(ents)
+	h.Assert(err == nil, "batch accepted")
+	hs.g.write(name, batch)
+	return name
+}
+
+// ---- rendering (same text for model versions and implementation entities)
+
+func vRenderVal(v interface{}) string {
+	switch x := v.(type) {
+	case string:
+		return x
+	case []interface{}:
+		s := "["
+		for i, e := range x {
+			if i > 0 {
+				s += " "
+			}
+			s += vRenderVal(e)
+		}
+		return s + "]"
+	case []string:
+		s := "["
+		for i, e := range x {
+			if i > 0 {
+				s += " "
+			}
+			s += e
+		}
+		return s + "]"
+	case float64:
+		if x == float64(int64(x)) {
+			return itoa(int(x))
+		}
+		return "float"
+	case int:
+		return itoa(x)
+	case int64:
+		return itoa(int(x))
+	case bool:
+		return vB(x)
+	case nil:
+		return "null"
+	}
+	return "?"
+}
+
+func itoa(n int) string {
+	if n == 0 {
+		return "0"
+	}
+	neg := n < 0
+	if neg {
+		n = -n
+	}
+	s := ""
+	for n > 0 {
+		s = string(rune('0'+n%10)) + s
+		n /= 10
+	}
+	if neg {
+		s = "-" + s
+	}
+	return s
+}
+
+func vRenderMap(m map[string]interface{}) string {
+	keys := make([]string, 0, len(m))
+	for k := range m {
+		keys = append(keys, k)
+	}
+	sort.Strings(keys)
+	s := "{"
+	for _, k := range keys {
+		s += k + "=" + vRenderVal(m[k]) + ";"
+	}
+	return s + "}"
+}
+
+func vRenderEntity(e *Entity) string {
+	if e == nil {
+		return "<nil>"
+	}
+	return e.ID + "|del=" + vB(e.IsDeleted) + "|props" + vRenderMap(e.Properties) + "|refs" + vRenderMap(e.References)
+}
+
+func mRender(v *mVersion) string {
+	props := map[string]interface{}{}
+	for k, val := range v.Props {
+		props[k] = val
+	}
+	refs := map[string]interface{}{}
+	for p, ts := range v.Refs {
+		if len(ts) == 1 {
+			refs[p] = ts[0]
+		} else {
+			refs[p] = ts
 		}
 	}
-	v.Deleted = h.Choice("del", 2) == 1
-	return v
+	return v.ID + "|del=" + vB(v.Deleted) + "|props" + vRenderMap(props) + "|refs" + vRenderMap(refs)
+}
+
+func vRenderList(es []*Entity) []string {
+	out := make([]string, 0, len(es))
+	for _, e := range es {
+		out = append(out, vRenderEntity(e))
+	}
+	return out
+}
+
+func vSorted(xs []string) []string {
+	out := append([]string{}, xs...)
+	sort.Strings(out)
+	return out
+}
+
+// mMergeRender renders the merge of the non-deleted latest versions of id over
+// the in-scope datasets, in dataset order, as mergeInto documents: a colliding
+// key becomes a list of the values (lists are flattened one level).
+func (g *mGraph) mMergeRender(id string, scope []string) (string, bool, bool) {
+	props := map[string]interface{}{}
+	refs := map[string]interface{}{}
+	found, anyDeleted := false, false
+	add := func(m map[string]interface{}, k string, v interface{}) {
+		old, ok := m[k]
+		if !ok {
+			m[k] = v
+			return
+		}
+		var list []interface{}
+		if ol, isList := old.([]interface{}); isList {
+			list = append(list, ol...)
+		} else {
+			list = append(list, old)
+		}
+		if vl, isList := v.([]interface{}); isList {
+			list = append(list, vl...)
+		} else {
+			list = append(list, v)
+		}
+		m[k] = list
+	}
+	for _, name := range g.Names {
+		if !g.inScope(name, scope) {
+			continue
+		}
+		v, ok := g.DS[name].Latest[id]
+		if !ok {
+			continue
+		}
+		if v.Deleted {
+			anyDeleted = true
+			continue
+		}
+		found = true
+		for k, val := range v.Props {
+			add(props, k, val)
+		}
+		for p, ts := range v.Refs {
+			if len(ts) == 1 {
+				add(refs, p, ts[0])
+			} else {
+				l := make([]interface{}, len(ts))
+				for i, t := range ts {
+					l[i] = t
+				}
+				add(refs, p, l)
+			}
+		}
+	}
+	return id + "|del=false|props" + vRenderMap(props) + "|refs" + vRenderMap(refs), found, anyDeleted
 }
 
 func vB(b bool) string {
